@@ -6,6 +6,7 @@ toolchain go1.23.5
 
 require (
 	github.com/karagenc/socket.io-go v0.0.0
+	nhooyr.io/websocket v1.8.11
 	pgregory.net/rapid v1.3.0
 )
 
@@ -25,7 +26,6 @@ require (
 	golang.org/x/net v0.27.0 // indirect
 	golang.org/x/sys v0.22.0 // indirect
 	golang.org/x/text v0.16.0 // indirect
-	nhooyr.io/websocket v1.8.11 // indirect
 )
 
 replace github.com/karagenc/socket.io-go => /repo
